@@ -906,6 +906,48 @@ func hitNode(hit string) string {
 	return strings.Split(p[2], "#")[0]
 }
 
+// scheduleDependent reports fault placements whose effect depends on goroutine scheduling or Go map
+// order in a way the (sequentialised) model cannot know; such histories are not emitted.
+func scheduleDependent(s *StepObs) bool {
+	if s.Hit == "" || s.Fault == nil {
+		return false
+	}
+	nodesOf := func(ids []string) int {
+		m := map[string]bool{}
+		for _, c := range ids {
+			p := strings.Split(c, ".")
+			if len(p) == 3 {
+				m[p[1]] = true
+			}
+		}
+		return len(m)
+	}
+	switch s.Op.Kind {
+	case "create", "lambda":
+		// the deferred loop over processingCommits (a Go map) stops at the nil entry: which
+		// other entries were committed before it depends on map order
+		return strings.Contains(s.Hit, "wal/Log/create-processing") && len(s.Op.Plan) > 1
+	case "remove", "dissociate":
+		// the per-node tasks compete for the same pod lock
+		return nodesOf(s.Op.IDs) > 1 && (s.Fault.Method == "CreateLock" || s.Fault.Method == "Lock")
+	case "replace":
+		// the per-workload tasks of one node make the same node-level calls
+		return len(s.Op.IDs) > 1 && nodesOf(s.Op.IDs) < len(s.Op.IDs) &&
+			(s.Fault.Method == "GetNode" || s.Fault.Method == "ImageLocalDigests" || s.Fault.Method == "ImageRemoteDigest")
+	}
+	return false
+}
+
+// SkipHistory reports whether a history contains a schedule-dependent fault placement.
+func SkipHistory(h *History) bool {
+	for _, s := range h.Steps {
+		if scheduleDependent(s) {
+			return true
+		}
+	}
+	return false
+}
+
 func (d *driver) armFor(o Op) *FaultSpec {
 	ms := faultMethods[o.Kind]
 	if len(ms) == 0 {
@@ -920,6 +962,10 @@ func (d *driver) armFor(o Op) *FaultSpec {
 }
 
 func emit(r *vh.Run, h *history, extra map[string]any) {
+	if SkipHistory(h) {
+		r.Count("dropped-schedule-dependent")
+		return
+	}
 	tags, nontrivial := tagsOf(h)
 	for k, v := range extra {
 		tags[k] = v
